@@ -21,7 +21,8 @@ LEVEL = 'exploration'
 RULE = ('loop-body programs (param, count, acc, read, rng) x every assignment of the collections '
         'in play to {axis 0, axis 1, broadcast, carry} (scan) / {axis 0, axis 1, None} (vmap) x '
         'length/axis_size 1-3 x reverse x unroll x in/out axes {0,1,-1} x xs form {array, dict, '
-        'broadcast} x check_constancy_invariants x split_rngs, init and apply; remat_scan '
+        'broadcast} x check_constancy_invariants x split_rngs, init and apply; vmap with In(a) / '
+        'Out(b) / plain-int collections for every (a, b, c) in {0,1}^3, n in {2,3}; remat_scan '
         'lengths {(2,),(2,2),(1,3)}. Non-trivial: at least one collection is scanned over or '
         'carried and the body updates a variable; distinct by configuration text')
 ASSUMPTIONS = [
@@ -85,12 +86,14 @@ def units(tier, seed):
       us.append(dict(kind='vmap', body=bi, roles=r))
   for bi in range(len(BODIES)):
     us.append(dict(kind='remat_scan', body=bi))
+  for with_st in (False, True):
+    us.append(dict(kind='vmap_io', with_st=with_st))
   return us
 
 
 def run_unit(unit):
   res = core.new_result()
-  {'scan': _scan, 'vmap': _vmap, 'remat_scan': _remat_scan}[unit['kind']](res, unit)
+  {'scan': _scan, 'vmap': _vmap, 'remat_scan': _remat_scan, 'vmap_io': _vmap_io}[unit['kind']](res, unit)
   return res
 
 
@@ -512,6 +515,88 @@ def _vmap(res, unit):
         if any(_axis(r) is not None for r in rl.values()):
           res['nontrivial'].append(core.h(['vmap', key]))
   res['samples'].append(dict(kind='vmap', body=dsl.tolist(body), roles=roles))
+
+
+def _vmap_io(res, unit):
+  """variable_axes with the In / Out markers: an In(a) collection is sliced along a and not
+  returned, an Out(b) collection is created inside and stacked along b, a plain-int collection
+  is both; every (a, b, c) x n x in/out axis of the argument, against the per-index loop."""
+  import jax
+  import jax.numpy as jnp
+  import flax.linen as nn
+  from flax.core import lift
+  with_st = unit['with_st']
+  seed = int(os.environ.get('VERIF_SEED', '0'))
+
+  class Body(nn.Module):
+    @nn.compact
+    def __call__(self, x):
+      t = self.variable('tab', 't', lambda: jnp.zeros((2,), jnp.float32)).value
+      y = x * t + 1.0
+      if with_st:
+        sv = self.variable('st', 's', lambda: jnp.zeros((2,), jnp.float32))
+        if self.is_mutable_collection('st'):
+          sv.value = sv.value + y
+        y = y + sv.value
+      self.variable('memo', 'm', lambda: y * 2.0 + jnp.asarray([0.0, 1.0], jnp.float32))
+      return y
+
+  for n in (2, 3):
+    base = (np.arange(n * 2, dtype=np.float32).reshape(n, 2) % 3) + 1 + (seed % 2)
+    tab = (np.arange(n * 2, dtype=np.float32).reshape(n, 2) % 4) + 2
+    st0 = (np.arange(n * 2, dtype=np.float32).reshape(n, 2) % 2) + 1
+    for a, b, c in itertools.product((0, 1), (0, 1), (0, 1) if with_st else (None,)):
+      for iax, oax in ((0, 0), (1, 0), (0, 1)):
+        cfg = dict(n=n, tab_in=a, memo_out=b, st_axis=c, in_axis=iax, out_axis=oax)
+        key = repr(sorted(cfg.items()))
+        vaxes = {'tab': lift.In(a), 'memo': lift.Out(b)}
+        if with_st:
+          vaxes['st'] = c
+        Vm = nn.vmap(Body, variable_axes=vaxes, split_rngs={'params': False},
+                     in_axes=iax, out_axes=oax, axis_size=n)
+        variables = {'tab': {'t': jnp.asarray(tab if a == 0 else tab.T.copy())}}
+        mut = ['memo']
+        if with_st:
+          variables['st'] = {'s': jnp.asarray(st0 if c == 0 else st0.T.copy())}
+          mut = ['memo', 'st']
+        x = base if iax == 0 else base.T.copy()
+        res['evals'] += 1 + n
+        try:
+          oT, updT = Vm().apply(variables, jnp.asarray(x), mutable=mut)
+        except Exception as e:  # noqa
+          core.violation(res, f'vmap-io-raises|{key}', f'{type(e).__name__}: {str(e)[:200]}', cfg)
+          continue
+        outs, memos, sts = [], [], []
+        for i in range(n):
+          vi = {'tab': {'t': jnp.asarray(tab[i])}}
+          if with_st:
+            vi['st'] = {'s': jnp.asarray(st0[i])}
+          oi, ui = Body().apply(vi, jnp.asarray(base[i]), mutable=mut)
+          outs.append(np.asarray(oi))
+          memos.append(np.asarray(ui['memo']['m']))
+          if with_st:
+            sts.append(np.asarray(ui['st']['s']))
+        if canon_tree(np.asarray(oT)) != canon_tree(np.stack(outs, axis=oax)):
+          core.violation(res, f'vmap-io-out|{key}', 'output differs from the per-index stack', cfg,
+                         observed=jsonable(oT), expected=jsonable(np.stack(outs, axis=oax)))
+        if 'tab' in updT:
+          core.violation(res, f'vmap-io-in-returned|{key}', 'an In(...) collection was returned', cfg)
+        em = np.stack(memos, axis=b)
+        gm = updT.get('memo', {}).get('m')
+        if gm is None or canon_tree(np.asarray(gm)) != canon_tree(em):
+          core.violation(res, f'vmap-io-memo|{key}',
+                         'the Out(b) collection is not the per-index values stacked along b', cfg,
+                         observed=jsonable(gm), expected=jsonable(em))
+        if with_st:
+          es = np.stack(sts, axis=c)
+          gs = updT.get('st', {}).get('s')
+          if gs is None or canon_tree(np.asarray(gs)) != canon_tree(es):
+            core.violation(res, f'vmap-io-st|{key}',
+                           'the plain-axis collection is not the per-index updates stacked along c',
+                           cfg, observed=jsonable(gs), expected=jsonable(es))
+        core.outcome(res, f'vmap-io:ok:st={with_st}')
+        res['nontrivial'].append(core.h(['vmap_io', key]))
+  res['samples'].append(dict(kind='vmap_io', with_st=with_st))
 
 
 def _remat_scan(res, unit):
